@@ -6,9 +6,10 @@
 
    Numeric assumptions (the ONLY link between the floating-point tests and the numeric atoms; they
    are what the harness checks on the real code against the dense reference):
-     A-EST   krylov_exp_impl: the vector assembled at a happy breakdown or when the Expokit estimate
-             is below exp_tolerance is accurate (10 tol |v| + rounding).  Nothing is assumed about the
-             vector assembled after the loop is exhausted.
+     A-EST   krylov_exp_impl: the vector assembled at a happy breakdown, or when the Expokit estimate
+             recomputed with the true |op(q_{j+1})| confirms the cheap one, is accurate (10 tol |v| +
+             rounding).  Nothing is assumed about the cheap estimate alone, nor about the vector
+             assembled after the loop is exhausted.
      A-ORTH  ground-state search: the Lanczos basis is orthonormal, hence a Ritz value is the Rayleigh
              quotient of its own (normalised) Ritz vector and beta_j |y_j| is its true residual norm.
    TLC explores every control path for max_krylov_dim <= MaxDimBound and max_restarts <= MaxRestartsBound
@@ -29,16 +30,22 @@ Init == /\ acc = FALSE
              ELSE \E R \in 0..MaxRestartsBound : s = MinNew(m, R)
 
 (* ---------------- exponential ---------------- *)
-AEst(n2Small, errSmall, accNow) == (n2Small \/ errSmall) => accNow
+\* A-EST: exact at a happy breakdown; reliable when the estimate with the TRUE norm confirms.  The cheap
+\* estimate alone (errSmall without confirmation) promises nothing.
+AEst(n2Small, errSmall, confirmed, accNow) == (n2Small \/ (errSmall /\ confirmed)) => accNow
 ExpBreakdownStep ==                                          \* n2 < norm_tolerance (tested first)
   /\ Fn = "exp" /\ ExpCanIterate(s)
-  /\ \E e \in BOOLEAN, a \in BOOLEAN : AEst(TRUE, e, a) /\ acc' = a /\ s' = ExpIterate(s, TRUE, e)
-ExpConvergeStep ==                                           \* err < exp_tolerance
+  /\ \E e \in BOOLEAN, c \in BOOLEAN, a \in BOOLEAN :
+        AEst(TRUE, e, c, a) /\ acc' = a /\ s' = ExpIterate(s, TRUE, e, c)
+ExpConvergeStep ==                                           \* cheap estimate small, confirmed
   /\ Fn = "exp" /\ ExpCanIterate(s)
-  /\ \E a \in BOOLEAN : AEst(FALSE, TRUE, a) /\ acc' = a /\ s' = ExpIterate(s, FALSE, TRUE)
+  /\ \E a \in BOOLEAN : AEst(FALSE, TRUE, TRUE, a) /\ acc' = a /\ s' = ExpIterate(s, FALSE, TRUE, TRUE)
+ExpFalseAlarmStep ==                                         \* cheap estimate small, NOT confirmed: product reused
+  /\ Fn = "exp" /\ ExpCanIterate(s)
+  /\ \E a \in BOOLEAN : AEst(FALSE, TRUE, FALSE, a) /\ acc' = a /\ s' = ExpIterate(s, FALSE, TRUE, FALSE)
 ExpContinueStep ==                                           \* neither: the candidate vector may be anything
   /\ Fn = "exp" /\ ExpCanIterate(s)
-  /\ \E a \in BOOLEAN : AEst(FALSE, FALSE, a) /\ acc' = a /\ s' = ExpIterate(s, FALSE, FALSE)
+  /\ \E a \in BOOLEAN : AEst(FALSE, FALSE, FALSE, a) /\ acc' = a /\ s' = ExpIterate(s, FALSE, FALSE, FALSE)
 \* result assembled from the LAST expd: the same vector the last iteration would have returned
 ExpExhaustStep   == Fn = "exp" /\ ExpCanExhaust(s) /\ s' = ExpExhaust(s) /\ UNCHANGED acc
 ExpWrapStep      == Fn = "exp" /\ s.pc = "impl_ret" /\ s' = ExpWrap(s) /\ UNCHANGED acc
@@ -56,7 +63,7 @@ MinExhaustStep   == Fn = "min" /\ MinCanExhaust(s) /\ s' = MinCycleExhaust(s) /\
 MinAfterCycleStep == Fn = "min" /\ s.pc = "cycle_ret" /\ s' = MinAfterCycle(s) /\ UNCHANGED acc
 MinWrapStep      == Fn = "min" /\ s.pc = "impl_ret" /\ s' = MinWrap(s) /\ UNCHANGED acc
 
-Next == \/ ExpBreakdownStep \/ ExpConvergeStep \/ ExpContinueStep \/ ExpExhaustStep \/ ExpWrapStep
+Next == \/ ExpBreakdownStep \/ ExpConvergeStep \/ ExpFalseAlarmStep \/ ExpContinueStep \/ ExpExhaustStep \/ ExpWrapStep
         \/ MinBreakdownStep \/ MinIterStep \/ MinExhaustStep \/ MinAfterCycleStep \/ MinWrapStep
 Spec == Init /\ [][Next]_vars /\ WF_vars(Next)
 
@@ -66,6 +73,7 @@ Returned == s.pc \in {"impl_ret", "done"}                     \* the impl has pr
 ExpHonest ==
   (Fn = "exp" /\ Returned) =>
      /\ ExpReqItersBounded(s.iters, s.maxDim)
+     /\ ExpReqOpsBounded(s.ops, s.maxDim)
      /\ ExpReqConvAccurate(s.conv, acc)
      /\ (s.bd => s.conv)                                      \* the constructor's own assertion
 ExpPublic ==
@@ -76,8 +84,10 @@ ExpPublic ==
 \* control facts the binding relies on (mechanism level): exits and their iteration counts
 ExpShape ==
   (Fn = "exp" /\ Returned) =>
-     /\ s.kind = "exhausted" => (~s.conv /\ s.iters = s.maxDim)
+     /\ s.kind = "exhausted" => (~s.conv /\ s.iters = s.maxDim /\ s.ops \in {s.maxDim, s.maxDim + 1})
      /\ s.kind \in {"breakdown", "converged"} => (s.conv /\ s.iters = s.j + 1 /\ s.iters >= 1)
+     /\ s.kind = "breakdown" => s.ops = s.iters            \* a false alarm costs nothing: its product is reused
+     /\ s.kind = "converged" => s.ops = s.iters + 1        \* exactly one confirming application
 
 (* ---------------- requirement C08 (atoms of the returned pair under A-ORTH) ---------------- *)
 AtomRayleigh    == s.bestIt > 0 /\ s.enIt = s.bestIt          \* energy and vector come from the SAME Ritz pair
@@ -104,6 +114,6 @@ Terminates == <>(s.pc = "done")
 \* every terminal state = one control path; printed for the spec -> code binding (always TRUE)
 PathLog ==
   s.pc = "done" =>
-    IF Fn = "exp" THEN PrintT(<<"P", "exp", s.maxDim, 0, s.kind, 0, s.iters, s.conv, s.bd, s.outcome>>)
+    IF Fn = "exp" THEN PrintT(<<"P", "exp", s.maxDim, 0, s.kind, s.ops - s.iters, s.iters, s.conv, s.bd, s.outcome>>)
     ELSE PrintT(<<"P", "min", s.maxDim, s.maxR, s.kind, s.r, s.total, s.conv, s.bd, s.outcome>>)
 ====
